@@ -213,6 +213,19 @@ def run(ctx):
                         a = render(g.sym_operand(t["args"][1]))
                     okr = okr or a.endswith("prev")
         ctx.check(okr, "STATE", "C15:STATE:fallback-guard:restores-prev", "drop restores the saved previous value", "MissingFieldLocationGuard::drop no longer restores the previous fallback location", config, ctx.where(gd2))
+        # every guard's drop performs its restore on every path (no early return — e.g. `if thread::panicking() { return }`
+        # would leave the thread-local state of a call that unwound through user code behind for the next call)
+        nd = 0
+        for gname in GUARDS:
+            gd = fx.fn_opt("<%s as std::ops::Drop>::drop" % gname)
+            if gd is None:
+                raise MissingAnchor("Drop impl of %s" % gname)
+            ctx.saw(gd)
+            eff = [b for b, t in gd.calls() if fx.callee(t) == "std::thread::LocalKey::with" or fx.callee(t).startswith("anchor_store::")]
+            nd += len(eff)
+            ctx.check(bool(eff) and must_pass(gd, [0], eff), "STATE", "C15:STATE:guard-drop-unconditional:%s" % gname, "drop restores the thread-local state on every path",
+                      "%s::drop can return without restoring the thread-local state (conditional restore): after a caught panic / that condition the next call on the thread starts from the previous call's state" % gname, config, ctx.where(gd))
+        ctx.floor("STATE.guard-drop-effects", nd, 3, config)
         # ---- 6. guards are neither Clone nor Copy; nothing forgets
         for gname in GUARDS:
             impls = {norm(i["trait"]) for i in fx.impls if i.get("self_adt") and norm(i["self_adt"]) == gname and i.get("trait")}
